@@ -68,7 +68,9 @@ def expected_linear(kw):
     hi = (2 ** ub - 1) * qs
   X = qref.X
   clipped = ("app", "clip", (), (X, qref.c(lo), qref.c(hi)))
-  return ("add", X, ("mul", qref.FSYM, ("add", clipped, ("neg", X))))
+  f = kw.get("qnoise_factor", F(1))
+  f_term = qref.c(F(f)) if isinstance(f, (int, F)) else qref.FSYM
+  return ("add", X, ("mul", f_term, ("add", clipped, ("neg", X))))
 
 
 def check_config(rep, repo, mod, cls, kw, phase):
@@ -122,6 +124,9 @@ def check_config(rep, repo, mod, cls, kw, phase):
     factor = NF.const(1) if ste or "use_ste" not in kw else NF.const(1) - FS
     if "qnoise_factor" not in kw:
       factor = NF.const(1)
+    elif isinstance(kw["qnoise_factor"], (int, F)):
+      factor = NF.const(1) if ste or "use_ste" not in kw else \
+          NF.const(1 - F(kw["qnoise_factor"]))
   if ref is None:
     return True
   rsegs = piecewise_derivative(ref, phase=phase)
@@ -231,7 +236,36 @@ def run(rep, repo, tier):
         yield "quantized_relu_po2", dict(
             bits=4, max_value=mv, negative_slope=slope, use_ste=ste,
             qnoise_factor=fs)
-  for cls, kw in itertools.chain(qref.lattice_all(tier), steep_slopes()):
+  def number_kinds():
+    # the noise factor as a NUMBER of every kind the constructors accept (the
+    # default python float, an int, a float below 1) instead of a tensor:
+    # the gradient clause does not depend on how the factor is spelled
+    from ..pe import FloatTag
+    kinds = (("default", None), ("float 1.0", FloatTag(1)), ("int 1", 1),
+             ("float 0.5", FloatTag(F(1, 2))), ("float 0.0", FloatTag(0)))
+    for _, f in kinds:
+      fk = {} if f is None else dict(qnoise_factor=f)
+      for slope, clipmode in itertools.product((F(0), F(1, 4)),
+                                               ("qclip", "ub", "none")):
+        kw = dict(bits=4, integer=1, negative_slope=slope, **fk)
+        if clipmode == "ub":
+          kw.update(is_quantized_clip=False, relu_upper_bound=F(3, 2))
+        elif clipmode == "none":
+          kw.update(is_quantized_clip=False, relu_upper_bound=None)
+        yield "quantized_relu", kw
+      for kn, alpha in itertools.product((True, False), (None, F(2))):
+        yield "quantized_bits", dict(bits=4, integer=1, keep_negative=kn,
+                                     alpha=alpha, **fk)
+      yield "quantized_bits", dict(bits=1, integer=0, **fk)
+      yield "quantized_linear", dict(bits=4, integer=1, keep_negative=True,
+                                     symmetric=True, **fk)
+      for mv in (None, F(4)):
+        yield "quantized_po2", dict(bits=4, max_value=mv, **fk)
+        yield "quantized_relu_po2", dict(bits=4, max_value=mv, **fk)
+        yield "quantized_relu_po2", dict(bits=4, max_value=mv,
+                                         negative_slope=F(1, 4), **fk)
+  for cls, kw in itertools.chain(qref.lattice_all(tier), steep_slopes(),
+                                 number_kinds()):
     phases = ["infer"]
     if cls == "bernoulli":
       # always random (training and inference alike): only the gradient
